@@ -369,7 +369,7 @@ def _job(job):
     st = explorer.explore(factory, case, bound, max_execs=max_execs, max_passes=3000, on_exec=on_exec)
     part.count("choice_points", st["choice_points"])
     if st["truncated"]:
-        part.cap(f"execution cap {max_execs} hit for {name} at bound {bound}")
+        part.cap(f"execution cap {max_execs} hit for {name} at bound {bound} (complete up to bound {st['completed_bound']}, {st['executions']} executions reported)")
     if len(part.samples) < 1:
         part.sample({"case": name, "bound": bound, "executions": st["executions"], "stream": case["stream"][:120]})
     return part
